@@ -62,6 +62,10 @@ func (f *Fosite) NewPushedAuthorizeRequest(ctx context.Context, r *http.Request)
 	// However this is required by NewAuthorizeRequest implementation
 	if len(r.Form.Get("client_id")) == 0 {
 		r.Form.Set("client_id", client.GetID())
+	} else if authenticated := client.GetID(); authenticated != "" && r.Form.Get("client_id") != authenticated {
+		// The request is validated and stored for the client named in the form. That has to be the client that
+		// authenticated, otherwise one client could push authorization requests in the name of another.
+		return request, errorsx.WithStack(ErrInvalidRequest.WithHint("The 'client_id' request parameter does not match the authenticated OAuth 2.0 Client."))
 	}
 
 	// Validate as if this is a new authorize request
